@@ -84,6 +84,7 @@ class Translator:
     FUEL = "m0.recs.length + 1"
     TYPE_MAP = {}
     SELF_METHOD_RENAME = {}
+    NO_AUTO = ()               # method names that a profile renders itself (never auto-included as helpers)
 
     def __init__(self, src, wanted):
         self.src = src
@@ -104,6 +105,41 @@ class Translator:
                         self.fns[key] = FnInfo(f, wanted[key])
         self.missing = [w for w in wanted if w not in self.fns]
         self.errors = {}
+        # private helpers: a function of this file that a translated function calls on `self` / `Self::` and that is not
+        # in the list is translated as well (transitively), so that extracting a helper does not leave the subset
+        self.auto = []
+        by_name = {}
+        for f in scan_functions(src):
+            if f.body is not None and f.name not in by_name and not f.name.startswith("test"):
+                by_name[f.name] = f
+        rust_names = {fi.fn.name for fi in self.fns.values()}
+        grew = True
+        while grew:
+            grew = False
+            for fi in list(self.fns.values()):
+                if fi.fn.body is None:
+                    continue
+                found = []
+
+                def visit(n):
+                    nm = None
+                    if n.kind == "mcall" and self.is_self(n.recv):
+                        nm = n.name
+                    elif n.kind == "call" and n.f.kind == "path" and len(n.f.path) == 2 and n.f.path[0] == "Self":
+                        nm = n.f.path[1]
+                    if nm and nm not in self.fns and nm not in rust_names and nm in by_name and nm not in self.NO_AUTO:
+                        found.append(nm)
+                self.walk(fi.fn.body, visit)
+                for nm in found:
+                    if nm in self.fns:
+                        continue
+                    f = by_name[nm]
+                    if not self.accept_fn(f):
+                        continue
+                    self.preprocess(f)
+                    self.fns[nm] = FnInfo(f, nm)
+                    self.auto.append(nm)
+                    grew = True
         FN_NAMES.clear()
         FN_NAMES.update(fi.lean_name for fi in self.fns.values())
         # which functions can fail (fixpoint)
@@ -249,10 +285,27 @@ class Translator:
                 if fi.fn.body is None:
                     raise Untranslatable("parse error: " + str(fi.fn.error))
                 t = self.translate_fn(fi)
+                if name in getattr(self, "auto", ()):
+                    # an extracted helper: `simp` may unfold it wherever it is called (the bridge proofs do not know its name)
+                    t = t.replace("\ndef ", "\n@[reducible, simp] def ", 1)
+                    # a single-expression pure helper is emitted without the `Id.run do` wrapper, so that it unfolds to its
+                    # expression under reducible transparency (what `simp only`/`rw` match with)
+                    m_ = re.search(r":= Id\.run do\n  return (.*)\Z", t)
+                    if m_ and "\n" not in m_.group(1):
+                        t = t[:m_.start()] + ":=\n  " + m_.group(1)
                 out.append(t)
                 self.outputs[fi.lean_name] = t
             except (Untranslatable, ParseError) as ex:
                 self.errors[name] = str(ex)
+        # an extracted helper that cannot be translated matters only if a translated function really calls it
+        # (e.g. a capacity hint for `Vec::with_capacity` is dropped by the translation, and its helper with it)
+        for name in list(self.errors):
+            if name in getattr(self, "auto", ()):
+                ln = self.fns[name].lean_name
+                if not any(re.search(r"\b" + re.escape(ln) + r"\b", t) for t in self.outputs.values()):
+                    del self.errors[name]
+                    del self.fns[name]
+                    self.auto.remove(name)
         return "\n\n".join(out)
 
     def translate_fn(self, fi):
@@ -2712,7 +2765,15 @@ def gen_tree(rel, ns, bits, outname):
     except (OSError, ParseError) as ex:
         report["untranslatable"]["<file>"] = str(ex)
     base = outname[:-len(".lean")]
-    for group, names, deps in TREE_GROUPS:
+    groups = list(TREE_GROUPS)
+    aux = [n for n in (tr.fns if outputs else []) if n in tr.auto and n in outputs]
+    aux_path = os.path.join(GEN, f"{base}Aux.lean")
+    if aux:
+        # helpers extracted from the listed functions: one module before all others
+        groups = [("Aux", aux, [])] + [(g, ns_, ["Aux"] + d) for g, ns_, d in groups]
+    elif os.path.exists(aux_path):
+        os.remove(aux_path)
+    for group, names, deps in groups:
         imports = "".join(f"import Stevia.Generated.{base}{d}\n" for d in deps)
         body = "\n\n".join(outputs[n] for n in names if n in outputs)
         text = TREE_HEADER.format(path=rel, ns=ns, group=group, imports=imports) + body + f"\n\nend {ns}\nend Stevia\n"
